@@ -161,7 +161,11 @@ func (fx *Fx) execRange(st *State, s *ast.RangeStmt) {
 		m := fx.eval(st, s.X)
 		ks, vs := c.sortOf(u.Key()), c.sortOf(u.Elem())
 		key := typeKey(xt)
-		lp.counter = ""
+		// iteration counter: a range over a map takes one turn per entry the map had when the loop started (Go
+		// guarantees this when the body does not insert or delete; like the visited set this is part of the map model)
+		lp.initCtr = "0"
+		cntAtEntry := c.define("mcnt", "Int", fmt.Sprintf("(select %s %s)", st.heap("MC:"+key, "(Array Int Int)"), m.T))
+		st.assume(fmt.Sprintf("(and (>= %s 0) (=> (= %s 0) (= %s 0)))", cntAtEntry, m.T, cntAtEntry))
 		more := ""
 		// ghost: the set of keys visited so far (each key of the map is visited exactly once)
 		visSort := "(Array " + ks + " Bool)"
@@ -177,9 +181,13 @@ func (fx *Fx) execRange(st *State, s *ast.RangeStmt) {
 			// only keys of the map are ever visited; the loop goes on exactly while an unvisited key remains
 			t.assume(fmt.Sprintf("(forall ((k!v %s)) (! (=> (select %s k!v) (select %s k!v)) :pattern ((select %s k!v))))", ks, vis, domAtEntry, vis))
 			t.assume(fmt.Sprintf("(=> (not %s) (forall ((k!v %s)) (! (=> (select %s k!v) (select %s k!v)) :pattern ((select %s k!v)))))", more, ks, domAtEntry, vis, domAtEntry))
+			k := t.ghost[lp.counter]
+			t.assume(fmt.Sprintf("(and (<= 0 %s) (<= %s %s) (= %s (< %s %s)))", k, k, cntAtEntry, more, k, cntAtEntry))
 		}
 		lp.condF = func(t *State) string { return more }
-		lp.postF = func(t *State) {}
+		lp.postF = func(t *State) {
+			fx.setCounter(t, lp, c.define("rk", "Int", fmt.Sprintf("(+ %s 1)", t.ghost[lp.counter])))
+		}
 		lp.preBody = func(t *State) {
 			k := c.freshConst("mk", ks)
 			if ra := c.rangeAssume(k, u.Key()); ra != "" {
